@@ -174,8 +174,10 @@ def located(parser, schema, name):
 
 @contract('pydbml.parser.parser:PyDBMLParser.locate_table')
 class locate_table:
+    uses = {'pydbml.database:Database.table_dict': ('ensures_values_are_the_listed_objects',)}
     returns_defines = True
-    assume_at_call = ('ensures_listed', 'ensures_by_full_name_first', 'ensures_else_by_alias_or_bare_key')
+    assume_at_call = ('ensures_listed', 'ensures_by_full_name_first', 'ensures_else_by_alias_or_bare_key',
+                      'ensures_not_new')
 
     def returns(self, schema, name):
         return located(self, schema, name)
@@ -200,6 +202,10 @@ class locate_table:
     def ensures_listed(self, schema, name, result):
         # one of the listed table objects itself (identity, not an equal copy: C05)
         return any(self.database.tables[i] is result for i in range(len(self.database.tables)))
+
+    def ensures_not_new(self, schema, name, result):
+        # an object (with its column list) that existed before the call: lookups create nothing
+        return not fresh(result) and not fresh(result.columns)
 
     def ensures_by_full_name_first(self, schema, name, result):
         return not name_taken(self.database, schema + '.' + name) or \
@@ -372,3 +378,28 @@ class table_group_build:
     def ensures_note(self, result):
         return (result.note is None) if self.note is None else \
             (fresh(result.note) and result.note.parent is result and result.note.text == normalised(self.note.text))
+
+
+# ------------------------------------------------------------------------------------------ EnumBlueprint
+@contract('pydbml.parser.blueprints:EnumBlueprint.build')
+class enum_build:
+    """C01: the Enum carries the declared name, schema and comment and one item per declared item, in order,
+    each with the declared name, comment and (normalised) note; every object is new (C11)."""
+    fresh_result = True
+    properties = ('C01', 'C05', 'C11')
+    params = {'self': 'EnumBlueprint'}
+    pure = True
+    ret = 'Enum'
+
+    def ensures_fields(self, result):
+        return (result.name == self.name and result.schema == self.schema and result.comment == self.comment
+                and result.database is None)
+
+    def ensures_items(self, result):
+        return (fresh(result.items) and len(result.items) == len(self.items)
+                and all(result.items[j].name == self.items[j].name
+                        and result.items[j].comment == self.items[j].comment
+                        and result.items[j].note.parent is result.items[j]
+                        and result.items[j].note.text == (normalised(self.items[j].note.text)
+                                                          if self.items[j].note is not None else '')
+                        for j in range(len(self.items))))
